@@ -122,6 +122,13 @@ def check(F, prem):
                 if up and x not in up:
                     found = (found - {x}) | up
         extra = found - allowed
+        if extra and not any(a in F.fns or a in F.built for a in allowed):
+            # none of the callers the row names exists any more (renamed along with the function): the row then rests on its
+            # other premises, which are checked at *every* call of the function in its crate - provided nobody outside the
+            # crate can call it
+            g0 = F.fns.get(fn)
+            if g0 is not None and (g0.get("vis") or "") != "Public" and found and all((F.fns.get(x) or {}).get("crate") == g0["crate"] for x in found):
+                return True, "called from %s (the callers the row named are gone; the guard is checked at every call)" % sorted(x.split("::")[-1] for x in found)
         if extra:
             return False, "%s is now also called from %s" % (fn.split("::")[-1], sorted(x.split("::")[-1] for x in extra))
         if not found:
@@ -130,7 +137,17 @@ def check(F, prem):
     if t in ("call_guarded", "arg_cast_from", "dominated_by_const_key_inserts"):
         sites = _calls_of(F, prem["caller"], prem["callee"])
         if sites is None:
-            return False, "caller %s not found" % prem["caller"]
+            # the caller the row names is gone (renamed): every function of the crate that calls the callee is checked
+            cal = F.fns.get(prem["callee"])
+            sites = []
+            if cal is not None:
+                for p2, g2 in sorted(F.fns.items()):
+                    if g2["crate"] != cal["crate"] or g2.get("owner") or p2 == prem["callee"]:
+                        continue
+                    if any((tm2.get("resolved") or tm2.get("callee")) == prem["callee"] for b2 in with_closures(F, g2) for _, tm2 in mir.calls(b2)):
+                        sites += _calls_of(F, p2, prem["callee"]) or []
+            if not sites:
+                return False, "caller %s not found" % prem["caller"]
         if not sites:
             return False, "%s no longer calls %s" % (prem["caller"].split("::")[-1], prem["callee"].split("::")[-1])
         for g, bi, tm in sites:
